@@ -85,11 +85,15 @@ def run(run):
                 for rd in case['reads']:
                     for fr in rd:
                         fr[0] = 0
+            if i % 3 == 2 and framing != 'tls' and front in ('aio-tcp', 'aio-udp', 'sync-udp', 'tw-udp'):
+                # datagrams from several senders; several reads queued before the asyncio handler task runs
+                SH.add_delivery(r, case)
+                run.count('histories_with_delivery_pattern')
             ok = check(run, case)
             nreq = sum(len(rd) for rd in case['reads'])
             run.case(h64(repr(case)), nreq >= 2,
                      sample={'front': front, 'framing': framing, 'single': case['layout']['single'], 'hosted': sorted(case['layout']['units']), 'flags': case['flags'],
-                             'reads': [[(u, t, m['fc']) for u, t, m in rd] for rd in case['reads']][:6], 'verdict': 'one matching response per request' if ok else 'differs'},
+                             'reads': [[(u, t, m['fc']) for u, t, m in rd] for rd in case['reads']][:6], 'delivery': case.get('delivery'), 'verdict': 'one matching response per request' if ok else 'differs'},
                      sample_class=(front, framing))
     if run.thorough and run.shard in (None, 0):
         from . import loopback
